@@ -11,12 +11,13 @@ Definition two32 : N := 4294967296.
 Definition encode (off e : N) : N := (e + off) mod two32.
 Definition decode (off c : N) : N := (c + (two32 - off mod two32)) mod two32.
 
-(* code points CPython/numpy accept inside a field name: not NUL (would be stripped), not a
-   UTF-16 surrogate, at most 0x10FFFF *)
-Definition valid_cp (c : N) : bool :=
-  (0 <? c) && ((c <? 55296) || ((57344 <=? c) && (c <=? 1114111))).
+(* code points numpy accepts inside a field name: not NUL (would be stripped), at most 0x10FFFF; whether a
+   UTF-16 surrogate (0xD800..0xDFFF) is accepted depends on the numpy build - [sur] is what the harness
+   measures on numpy itself (numpy.dtype([(chr(0xD800), "i8")])), not on numpoly *)
+Definition valid_cp (sur : bool) (c : N) : bool :=
+  (0 <? c) && ((c <? 55296) || (sur && (c <? 57344)) || ((57344 <=? c) && (c <=? 1114111))).
 
-Definition representable (off e : N) : bool := (e + off <? two32) && valid_cp (e + off).
+Definition representable (sur : bool) (off e : N) : bool := (e + off <? two32) && valid_cp sur (e + off).
 
 Definition encode_row (off : N) (r : list N) : list N := map (encode off) r.
 Definition decode_row (off : N) (k : list N) : list N := map (decode off) k.
